@@ -13,13 +13,14 @@ Conventions
   resize callback (`rve`), exactly the two values the C code switches between.
 * The library (and the harnesses) are built with `NDEBUG`: `assert`s are no-ops.  Where an assertion guards a
   memory access (`assert(rec_idx < ht->size)` in `_lyht_insert_with_resize_cb`) the model returns `Res.full`
-  instead of performing the out-of-bounds access; `Inv.firstFree_lt` (Lemmas) proves this never happens for a
-  table created with resizing enabled, and for a fixed-size table exactly when `used = size`.
+  instead of performing the out-of-bounds access; `ht_resizable_never_full` (Props/C17) proves this never happens for a
+  table with resizing enabled, `l1_first_free_in_bounds` (Props/C17L1) that it happens exactly when `used = size`.
 * `lyht_resize` re-inserts through `lyht_insert(_no_check)`, i.e. through `_lyht_insert_with_resize_cb` itself.
-  The nested calls cannot resize again (`nested_insert_never_resizes`, Props), so the model re-inserts with
+  The nested calls cannot resize again (`nested_insert_never_resizes`, Props/C17), so the model re-inserts with
   `insertCore` (everything of `_lyht_insert_with_resize_cb` up to and including `++ht->used`).
 * Arithmetic is on `Nat`; the C code uses `uint32_t` (`used * 100` wraps for `used ≥ 42 949 673`, `size <<= 1`
-  wraps at 2^31).  Assumption recorded in the check module: tables have fewer than 2^25 records.
+  wraps at 2^31).  Assumption recorded in the check module: tables have fewer than 2^25 records
+  (`l1_refines_l2` asks for sizes below 2^31 along the history).
 -/
 namespace LyModel.LyHt
 open LyModel.Generated
